@@ -258,9 +258,10 @@ def _run(ctx, work):
     # the facts file is regenerated on every run (untracked; a committed baseline copy only serves setup)
     old = open(FACTS).read() if os.path.exists(FACTS) else ''
     changed = facts != old
-    if changed:
-        with vlib.Lock('coq'): open(FACTS, 'w').write(facts)
-    ctx.prove()
+    with vlib.GlobalLock('facts'):
+        if changed or (os.path.exists(FACTS) and open(FACTS).read() != facts):
+            with vlib.Lock('coq'): open(FACTS, 'w').write(facts)
+        ctx.prove()
     base = FACTS.replace('.v', '.baseline')
     differs = (not os.path.exists(base)) or open(base).read() != facts
     if differs:
